@@ -34,7 +34,7 @@ ASSUMPTIONS = [
 ]
 ANCHORS = ["dagrt.data:unify", "dagrt.data:SymbolKindTable.set", "dagrt.data:SymbolKindFinder.__call__",
            "dagrt.data:KindInferenceMapper.map_sum"]
-MIN_NONTRIVIAL = {"quick": 1200, "thorough": 6000}
+MIN_NONTRIVIAL = {"quick": 1200, "thorough": 12600}
 REQUIRED_COUNTERS = {"quick": ["unify_pairs", "unify_triples", "presentations_compared",
                                "unify_contract_evaluations", "hashseed_tables_compared"],
                      "thorough": ["unify_pairs", "unify_triples", "presentations_compared",
@@ -53,7 +53,7 @@ def _last_json(stdout):
 def plan(tier, seed):
     sh = [{"kind": "algebra"}]
     n = 16
-    per = 60 if tier == "quick" else 700
+    per = 60 if tier == "quick" else 2100
     for k in range(n):
         sh.append({"kind": "prog", "seed": f"C14:{seed}:{k}", "count": per,
                    "nperm": 12 if tier == "quick" else 40,
@@ -176,7 +176,14 @@ def gen_program(rng, conflict=False):
                     if c < 0.12 or not loc["real"]:
                         return ["num", rng.choice([1, 2, 0.5, 3.25, -1.5])]
                     return ["var", rng.choice(loc["real"])]
-                op = rng.choice(["+", "*", "-", "/", "**", "min", "len", "norm", "sub", "int"])
+                op = rng.choice(["+", "*", "-", "/", "**", "min", "len", "norm", "sub", "int", "dot"])
+                if op == "dot" and (loc["arr"] or loc["ut"]):
+                    pool = loc["arr"] if (loc["arr"] and (not loc["ut"] or rng.random() < 0.6)) else loc["ut"]
+                    fn = rng.choice(["<builtin>dot_product", "<builtin>dot_product", "<builtin>norm_1",
+                                     "<builtin>norm_inf"])
+                    if fn == "<builtin>dot_product":
+                        return ["call", fn, [["var", rng.choice(pool)], ["var", rng.choice(pool)]], {}]
+                    return ["call", fn, [["var", rng.choice(pool)]], {}]
                 if op in ("+", "*", "-"):
                     return [op, realexpr(depth - 1), realexpr(depth - 1)]
                 if op == "/":
@@ -222,6 +229,28 @@ def gen_program(rng, conflict=False):
                 else:
                     rhs = ["*", ["cnum", 0.0, 2.0], ["var", rng.choice(loc["arr"])]]
                     phases[pn].append(["assign", lhs("cb", "carr"), rhs])
+            elif r < 0.69 and (loc["arr"] or loc["carr"]):
+                # built-ins whose result kind is computed from the argument kinds, as call statements: visited
+                # before or after their arguments' kinds are known, depending on the presentation
+                pool = loc["arr"] + loc["carr"]
+                a, b = rng.choice(pool), rng.choice(pool)
+                anyc = a in loc["carr"] or b in loc["carr"]
+                q = rng.random()
+                if q < 0.4:
+                    phases[pn].append(["call", [lhs("d", "cplx")], "<builtin>dot_product",
+                                       [["var", a], ["var", b]], {}])
+                elif q < 0.55:
+                    phases[pn].append(["call", [lhs("e", "carr" if a in loc["carr"] else "arr")],
+                                       "<builtin>elementwise_abs", [["var", a]], {}])
+                elif q < 0.7:
+                    phases[pn].append(["call", [lhs("m", "carr" if anyc else "arr")], "<builtin>matmul",
+                                       [["var", a], ["var", b], ["num", 1], ["num", 1]], {}])
+                elif q < 0.85:
+                    phases[pn].append(["call", [lhs("ls", "carr" if anyc else "arr")], "<builtin>linear_solve",
+                                       [["var", a], ["var", b], ["num", 1], ["num", 1]], {}])
+                else:
+                    phases[pn].append(["call", [lhs("tr", "carr" if a in loc["carr"] else "arr")],
+                                       "<builtin>transpose", [["var", a], ["num", 1]], {}])
             elif r < 0.75:
                 args = [realexpr(1), ["var", rng.choice(loc["ut"])]]
                 u = lhs("u", "ut")
